@@ -24,6 +24,27 @@
 
 namespace nostd = opentelemetry::nostd;
 
+// AddressSanitizer reports of the exploration are never shown (stderr is silenced around the operations, the report
+// is what `bin/check --replay` prints), but symbolizing one costs seconds of wall time on a loaded machine and can
+// push a crashing child over the per-execution alarm. Symbolization is therefore switched off unless the process
+// was started with --replay.  Called by the ASan runtime before main(): raw system calls and plain loops only.
+#include <sys/syscall.h>
+extern "C" const char *__asan_default_options() {
+  static char buf[4096];
+  long fd = syscall(SYS_open, "/proc/self/cmdline", 0 /* O_RDONLY */, 0);
+  if (fd < 0) return "";
+  long n = syscall(SYS_read, fd, buf, sizeof buf - 1);
+  syscall(SYS_close, fd);
+  const char needle[] = "--replay";
+  for (long i = 0; n > 0 && i + (long)sizeof needle - 1 <= n; ++i) {
+    bool hit = true;
+    for (size_t k = 0; k + 1 < sizeof needle; ++k)
+      if (buf[i + (long)k] != needle[k]) { hit = false; break; }
+    if (hit) return "";
+  }
+  return "symbolize=0";
+}
+
 namespace {
 
 vf::Ctx *g_c = nullptr;
